@@ -90,8 +90,10 @@ class Runner:
         r = sh(cmd)
         if r.returncode != 0:
             raise Broken('ir2c failed on %s:\n%s' % (ll, r.stdout[-3000:]))
-        fns = [l for l in r.stdout.split('\n') if l.strip()]
+        pairs = [l.split('\t') for l in r.stdout.split('\n') if '\t' in l]
+        fns = [p[0] for p in pairs]                       # C identifiers (what CBMC calls the functions)
         self.functions[u.name] = fns
+        self.llvm_names = getattr(self, 'llvm_names', {}); self.llvm_names[u.name] = [p[1] for p in pairs]
         self.units[u.name] = u
         h = hashlib.sha256(open(ll, 'rb').read()).hexdigest()[:16]
         self.say('[lower] %s: %d functions encoded from current /repo tree (IR sha %s)' % (u.name, len(fns), h))
@@ -347,6 +349,7 @@ class Runner:
         if self.only: qs = [q for q in qs if re.search(self.only, q.name)]
         for u in mod.UNITS:
             self.build_unit(u)
+        if hasattr(mod, 'prepare'): mod.prepare(self)       # generated inputs (e.g. enumerated shape lists) go to the scratch directory
         # translator validation
         nval = getattr(mod, 'VALIDATE_VECTORS', 60)
         for q in getattr(mod, 'validation_queries', lambda t: [])(self.tier):
@@ -423,7 +426,7 @@ class Runner:
         wit_ok = {q.group for q in qs if (q.kind == 'witness' and q.res['verdict'] == 'failed') or (q.inline_witness and q.res.get('witness_reached') and not (q.res.get('witness_unreached') and q.witness == 'all'))}
         distinct = len({q.group for q in mains if q.res['verdict'] == 'verified' and q.group in wit_ok})
         fn_all = []
-        for u, f in self.functions.items(): fn_all += f
+        for u, f in getattr(self, 'llvm_names', {}).items(): fn_all += f
         dem = self.demangle(fn_all)
         pats = getattr(mod, 'FUNCTION_PATTERNS', None)
         if pats: dem_sel = [d for d in dem if any(re.search(p, d) for p in pats)]
